@@ -234,6 +234,31 @@ def run(spec):
             o.check(abs(rr.L[key[0]][key[1]] - ref[key]) <= 1e-12 * scale, "L_table_%d%d" % key)
     o.check(rr.L[0][1] == rr.L[1][0] and rr.L[1][2] == rr.L[2][1], "L_table_symmetric")
 
+    # ---- duct and bypass ring centroids sit on the mid-surface of their annulus -------------
+    ftfs = [spec["ftf"][0]] + list(spec["ftf"])    # ring r (0 = first duct) spans ftfs[r+1]..ftfs[r+2]
+    worst = 0.0
+    for rr_ in range(2 * nd - 1):
+        lo_, hi_ = spec["ftf"][rr_], spec["ftf"][rr_ + 1]
+        apo = 0.25 * (lo_ + hi_)
+        seg = slice(nc + rr_ * ndc, nc + (rr_ + 1) * ndc)
+        xy_ = sc.xy[seg]
+        t_ = ty[seg]
+        rad = np.hypot(xy_[:, 0], xy_[:, 1])
+        ang = np.arctan2(xy_[:, 1], xy_[:, 0])
+        # distance from the centre measured along the nearest face normal (normals at 0, 60, ... degrees)
+        nrm = np.round(ang / (np.pi / 3.0)) * (np.pi / 3.0)
+        proj = rad * np.cos(ang - nrm)
+        edge_ = (t_ == t_.min())
+        if np.any(edge_):
+            worst = max(worst, float(np.max(np.abs(proj[edge_] - apo))))
+        # corner cells lie on the diagonals (30, 90, ... degrees) at the mid-surface corner
+        diag = (np.round((ang - np.pi / 6.0) / (np.pi / 3.0)) * (np.pi / 3.0)) + np.pi / 6.0
+        cor_ = ~edge_
+        worst = max(worst, float(np.max(np.abs(rad[cor_] * np.cos(ang[cor_] - diag[cor_]) - apo / np.cos(np.pi / 6.0)))))
+        worst = max(worst, float(np.max(np.abs(rad[cor_] * np.sin(ang[cor_] - diag[cor_])))))
+    o.metric("ring_centroid_err_rel", worst / scale)
+    o.check(worst <= 1e-10 * scale, "ring_centroid_off_midsurface", "%.3e m" % worst)
+
     # ---- six-fold symmetry and rotation equivariance of the topology -----------------------
     tol = 1e-9 * scale
     perm_sc = match(rot60(sc.xy), sc.xy, tol)
